@@ -63,10 +63,56 @@ def model_box_search():
     return out
 
 
+def impl_box_search():
+    """the implementation itself (ForStmt.get_iteration_values in /repo, called in a subprocess) against the
+    documented sequence on a box of (start, stop, step)"""
+    import json
+    import subprocess
+    code = (
+        "import sys, json; sys.path.insert(0, %r)\n"
+        "from dsl_compiler.src.ast.statements import ForStmt\n"
+        "out = []\n"
+        "for a in range(-10, 11):\n"
+        "  for b in range(-10, 11):\n"
+        "    for s in (1, 2, 3, 4, -1, -2, -3, -4):\n"
+        "      try:\n"
+        "        v = ForStmt('i', a, b, s, None, []).get_iteration_values()\n"
+        "      except Exception as e:\n"
+        "        v = 'error: ' + str(e)\n"
+        "      out.append([a, b, s, v])\n"
+        "print(json.dumps(out))\n" % H.REPO)
+    p = subprocess.run(["/venv/bin/python", "-c", code], capture_output=True, text=True, timeout=120)
+    try:
+        rows = json.loads(p.stdout)
+    except Exception:  # noqa: BLE001
+        return None
+    bad = [(a, b, s, v) for a, b, s, v in rows if v != fr.range_values(a, b, s)]
+    bad.sort(key=lambda r: abs(r[0]) + abs(r[1]) + abs(r[2]))
+    return bad[:1]
+
+
 def run(tier, seed, t0):
-    def on_broken(rep, bad, out):
-        bad_c16 = [b for b in bad if any(f in b[1] for f in ("ForIter",)) or b[0] == "translator"]
-        return bad_c16
+    def on_broken(rep, bad):
+        # broken translator tie / theorem over ForStmt.get_iteration_values: look for a concrete triple, first on
+        # the regenerated model (if it exists), then on the implementation, and confirm on a compiled loop
+        cands = []
+        if not any(b[0] == "translator" for b in bad):
+            cands = [(a, b, s) for a, b, s, got, want in model_box_search()[:3]]
+        if not cands:
+            r = impl_box_search()
+            if r:
+                cands = [tuple(r[0][:3])]
+        for a, b, s in cands:
+            st = [("in", "a", "signal-A", 5),
+                  ("for", "i", ("range", a, b, s), [("place", "l", "small-lamp", ("ref", "i"), ("int", 0), None),
+                                                    ("enable", "l", ("cmp", ">", ("ref", "a"), ("ref", "i")))])]
+            el = fr.elaborate(st)
+            it = engine.Item("c16w", el.flat, text=fr.text(st), entities=el.entities)
+            engine.check_items(PROP + "W", [it], do_search=False)
+            if it.status != "pass":
+                return {"triple(start,stop,step)": [a, b, s], "expected_iteration_values": fr.range_values(a, b, s),
+                        "program": it.text, "detail": it.detail}
+        return None
 
     # a broken ForIter proof / translation is handled inside c01.run through FILES; add the search
     rep_holder = {}
@@ -76,7 +122,7 @@ def run(tier, seed, t0):
 
     rc = c01.run(tier, seed, t0, prop=PROP, n_quick=30, n_thorough=300,
                  make_items=lambda s, n: range_twin_items() + make_items(s, n),
-                 files=FILES, props_file="Props/C16.v", pre=pre,
+                 files=FILES, props_file="Props/C16.v", pre=pre, on_broken=on_broken,
                  rule="(1) theorems over the regenerated ForStmt.get_iteration_values for all (start, stop, step); "
                       "(2) boundary range loops and random loop programs (ranges in [-4,6], steps in +-1..3, lists, "
                       "nesting <= 2, iterator used in coordinates, arithmetic and comparisons) validated for all inputs "
